@@ -23,6 +23,20 @@ Definition dummy_cfg : band_cfg :=
 (* index into the 56 common configurations followed by the 40 obtained through deprecated names *)
 Definition cfg_at (i : N) : band_cfg := nth (N.to_nat i) (band_configs ++ band_alias_configs) dummy_cfg.
 
+(* compact notation for long histories in the generated case files *)
+Fixpoint add_run (f step : Z) (n : nat) (mn mx : Z) : list chan_op :=
+  match n with
+  | O => []
+  | S n' => OpAdd f mn mx :: add_run (f + step) step n' mn mx
+  end.
+Fixpoint idx_run (mk : Z -> chan_op) (lo : Z) (n : nat) : list chan_op :=
+  match n with
+  | O => []
+  | S n' => mk lo :: idx_run mk (lo + 1) n'
+  end.
+Definition disable_run := idx_run OpDisable.
+Definition enable_run := idx_run OpEnable.
+
 Inductive case :=
 (* configuration index <-> identity (keeps harness and dumper enumeration in step);
    [alias]: Name() of the deprecated alias of this band name, "" if none *)
